@@ -57,7 +57,7 @@ fn text_pool(me: &str, x: &str, y: &str, variant: usize, long: bool) -> Vec<Stri
     // 15: a long identifier at every site class an identifier, comment or literal can occur
     // (the GC must keep all of them alive: formatting and hovering read them back)
     format!(
-      "/** doc comment on the import {l} long enough to live in the heap */\nimport {{ Q{x}{l} }} from {x}\n\n/** doc comment on the interface {l} long enough for the heap */\ninterface Iface{me}{l}<TypeParamOfInterface{l}> {{\n  // line comment inside the interface {l} long enough\n  method <MethodTypeParam{l}> ifaceMethod{l}(ifaceParam{l}: TypeParamOfInterface{l}): MethodTypeParam{l}\n}}\n\n/* block comment before the class {l} long enough for the heap */\nclass AllSites{me}{l}<ClassTypeParam{l}: Iface{me}{l}<ClassTypeParam{l}>>(\n  val fieldNumberOne{l}: int,\n  val fieldNumberTwo{l}: ClassTypeParam{l}\n) {{\n  private method <OwnTypeParam{l}> memberName{l}(paramName{l}: (ClassTypeParam{l}) -> OwnTypeParam{l}, otherParam{l}: Q{x}{l}): OwnTypeParam{l} = {{\n    let localVariable{l} = (lambdaParam{l}: int) -> lambdaParam{l} + this.fieldNumberOne{l};\n    let {{ fieldNumberOne{l} as renamedField{l}, fieldNumberTwo{l} }} = this;\n    let (tupleFirst{l}, tupleSecond{l}) = (1, \"string literal {l} long enough to be heap allocated\");\n    // trailing line comment {l} long enough to be heap allocated\n    paramName{l}(fieldNumberTwo{l})\n  }}\n}}\n\nclass EnumSites{me}{l}(VariantNumberOne{l}(int), VariantNumberTwo{l}(Str, Q{x}{l})) {{\n  method matchSites{l}(): int =\n    match this {{\n      VariantNumberOne{l}(patternVariable{l}) -> patternVariable{l},\n      VariantNumberTwo{l}(_, otherPatternVariable{l}) -> 0,\n    }}\n  /* block comment at the end of the class {l} long enough */\n}}\n"
+      "/** doc comment on the import {l} long enough to live in the heap */\nimport {{ Q{x}{l} }} from {x}\n\n/** doc comment on the interface {l} long enough for the heap */\ninterface Iface{me}{l}<TypeParamOfInterface{l}> {{\n  // line comment inside the interface {l} long enough\n  method <MethodTypeParam{l}> ifaceMethod{l}(ifaceParam{l}: TypeParamOfInterface{l}): MethodTypeParam{l}\n  method <PhantomOfIfaceMethod{l}> phantomIfaceMethod{l}(): int\n}}\n\n/* block comment before the class {l} long enough for the heap */\nclass AllSites{me}{l}<ClassTypeParam{l}: Iface{me}{l}<ClassTypeParam{l}>>(\n  val fieldNumberOne{l}: int,\n  val fieldNumberTwo{l}: ClassTypeParam{l}\n) {{\n  private method <OwnTypeParam{l}> memberName{l}(paramName{l}: (ClassTypeParam{l}) -> OwnTypeParam{l}, otherParam{l}: Q{x}{l}): OwnTypeParam{l} = {{\n    let localVariable{l} = (lambdaParam{l}: int) -> lambdaParam{l} + this.fieldNumberOne{l};\n    let {{ fieldNumberOne{l} as renamedField{l}, fieldNumberTwo{l} }} = this;\n    let (tupleFirst{l}, tupleSecond{l}) = (1, \"string literal {l} long enough to be heap allocated\");\n    // trailing line comment {l} long enough to be heap allocated\n    paramName{l}(fieldNumberTwo{l})\n  }}\n  function <PhantomOfFunction{l}, SecondPhantomOfFunction{l}: Iface{me}{l}<int>> phantomFunction{l}(): int = 1\n}}\n\nclass EnumSites{me}{l}(VariantNumberOne{l}(int), VariantNumberTwo{l}(Str, Q{x}{l})) {{\n  method matchSites{l}(): int =\n    match this {{\n      VariantNumberOne{l}(patternVariable{l}) -> patternVariable{l},\n      VariantNumberTwo{l}(_, otherPatternVariable{l}) -> 0,\n    }}\n  /* block comment at the end of the class {l} long enough */\n}}\n"
     ),
     // 16: names that are imported and nothing else (not used, possibly not exported by x yet): the import list is
     // the only thing that keeps them known, and a later edit of x may start or stop exporting them
